@@ -103,6 +103,11 @@ def plan(rng, tier):
                 g.model.apply(op)
                 build.append(op)
     return {"cfg": cfg, "build": build,
+            # a valid tree is also what two concurrent transactions and the
+            # conflict resolver leave behind (a merged leaf may hold more
+            # entries than a leaf filled through one tree ever does)
+            "merge": rng.randrange(1 << 16) if cfg["stored"] and
+            rng.random() < 0.5 else None,
             "corrupt": rng.choice(KINDS + ["none"]),
             "node": rng.randrange(1 << 20), "arg": rng.randrange(1 << 20)}
 
@@ -352,6 +357,35 @@ def execute(plan, ctx):
         conn.commit()
         if conn.hazards:
             raise Precondition("known C04 finding: inline-duplicate")
+        if plan.get("merge") is not None:
+            from ..world import ConflictError
+            free = [k for k in range(dom.nkeys) if k not in model.d]
+            if len(free) >= 2:
+                ca, cb = SimConnection(st, impl), SimConnection(st, impl)
+                ta, tb = ca.get(oid), cb.get(oid)
+                b = plan["merge"] % len(free)
+                for j, k in enumerate(free[b:b + 4]):
+                    ops.apply(ta if j % 2 == 0 else tb,
+                              ["set", k, 0] if mapping else ["add", k],
+                              dom, impl, kind)
+                n0 = len(st.resolver_log)
+                try:
+                    ca.commit()
+                    cb.commit()
+                except ConflictError:
+                    pass
+                if ca.hazards or cb.hazards:
+                    raise Precondition("known C04 finding: inline-duplicate")
+                ta = tb = ca = cb = None
+                conn.begin()        # `t` shows what is stored now
+                if len(st.resolver_log) > n0:
+                    ctx.fault("concurrent-commit")
+                    ctx.probe("valid-tree-from-merge")
+                wm = walker.walk(t, dom, mapping)
+                if wm.problems:
+                    raise Precondition("merged tree is not valid (C08's "
+                                       "business)")
+                wm = None
         # a valid tree must be accepted in every activation state: loaded
         # by a fresh connection (every node but the root a ghost), with a
         # checker as the very first thing that touches it, and with a planned
